@@ -129,6 +129,14 @@ func (w *Worker) intrinsicHost(s *State, f *Frame, name string, fn *ssa.Function
 	case "(time.Time).Equal":
 		// only time values built by the models (zero / identical representations) occur: structural equality
 		return adv(w.deepEq(s, args[0], args[1], 0))
+	case "bytes.Clone":
+		sl := args[0].(SliceV)
+		if sl.arr.isNil() {
+			return adv(sl)
+		}
+		arr := make(Tuple, sl.len)
+		copy(arr, s.sliceElems(sl))
+		return adv(SliceV{arr: s.alloc(arr), len: sl.len, cap: sl.len})
 	case "bytes.IndexByte":
 		if bs, ok := concreteBytes(s, args[0].(SliceV)); ok {
 			c := asTerm(args[1])
